@@ -6,6 +6,8 @@ requests
   stats                           the statistics of the last `collect`
   count ty st                     count cell (0 when the group does not exist)
   cell ty st p total|min|max|mean value cell as hex16, `fill0` when there is no record (the frame shows 0)
+  stepcollect <ipop> <ops>        ipop = id@ty:state:props;…  ops = D<id.id>|C<id@agent>|S<id>.<st>|V<id>.<p>.<hex>|X joined by `|`:
+                                  the statistics run_step records = collect of the population after the operations
   hclear | hadd t <pop>           statistics history of a run: appends (t, collect pop)
   run df|dict|json agents states props aggs     comma lists or `-`; `raises` or `ok n` (n result keys)
   read ag st p|- agg|- t          a number of the last result (hex16; `fill0` = absent / filled 0)
@@ -88,6 +90,32 @@ def parseCol (st p a : String) : Option Col := do
   if p == "-" && a == "-" then some ⟨st, none⟩
   else some ⟨st, some ((← p.toNat?), (← parseAgg a))⟩
 
+def parseIAgent (s : String) : Option (IAgent Float) :=
+  match s.splitOn "@" with
+  | [i, a] => do some ⟨(← i.toNat?), (← parseAgent a)⟩
+  | _ => none
+
+def parseIPop (s : String) : Option (List (IAgent Float)) :=
+  if s == "-" then some [] else (s.splitOn ";").mapM parseIAgent
+
+def parseOp (s : String) : Option (PopOp Float) :=
+  match s.toList with
+  | ['X'] => some .clear
+  | 'D' :: rest =>
+    let r := String.ofList rest
+    if r == "" then some (.delete []) else ((r.splitOn ".").mapM (fun (x : String) => x.toNat?)).map PopOp.delete
+  | 'C' :: rest => (parseIAgent (String.ofList rest)).map PopOp.create
+  | 'S' :: rest => match (String.ofList rest).splitOn "." with
+    | [i, st] => do some (.setState (← i.toNat?) (← st.toNat?))
+    | _ => none
+  | 'V' :: rest => match (String.ofList rest).splitOn "." with
+    | [i, p, v] => do some (.setValue (← i.toNat?) (← p.toNat?) (Float.ofBits (← parseHex v)))
+    | _ => none
+  | _ => none
+
+def parseOps (s : String) : Option (List (PopOp Float)) :=
+  if s == "-" then some [] else (s.splitOn "|").mapM parseOp
+
 def stepLine (σ : St) (line : String) : St × String :=
   let s := σ.stats
   match line.trimAscii.toString.splitOn " " with
@@ -107,6 +135,10 @@ def stepLine (σ : St) (line : String) : St × String :=
         (σ, match meanCell s t st p with | some (n, d) => fb (n / Float.ofNat d) | none => "fill0")
       else (σ, "bad-op")
     | _, _, _ => (σ, "bad-op")
+  -- wave 3: statistics of a step = collect of the population after the step's operations
+  | ["stepcollect", p, ops] => match parseIPop p, parseOps ops with
+    | some pop, some ops => ({ σ with stats := collectStep floatOps pop ops }, "ok")
+    | _, _ => (σ, "bad-op")
   -- wave 2: the runner on a statistics history
   | ["hclear"] => ({ σ with hist := [], out := none }, "ok")
   | ["hadd", t, p] => match t.toNat?, parsePop p with
